@@ -20,6 +20,7 @@ REVERT = {  # fix commit subject fragment -> checks
  "upwind-direction argument": ["C05", "C17"], "zero upwind direction": ["C05"], "HCUS": ["C13", "C05"], "documented TypeError": ["C16"],
  "component labels": ["C16", "C10"], "constructor arity": ["C16"], "front/back periodic": ["C03", "C08", "C01"],
  "returned by solveExplicitPDE": ["C09", "C12"], "harmonicMean": ["C11"], "faceLocations": ["C15"], "logical operators": ["C14"],
+ "CellVariable stores its values as floats": ["C09"], "BoundaryFace stores integer": ["C09"],
 }
 args = sys.argv[1:]
 tests = "--tests" in args
